@@ -53,8 +53,11 @@ def cases(tier, seed):
             cells.append({"threads": [progs1[a], progs1[b]], "initial": {"f": False}, "limit": "big"})
     nsched = 28 if tier == "quick" else 400
     for c in cells:
-        out.append(dict(c, strategy="random", n=nsched, salt=rng.randrange(10 ** 9)))
-        out.append(dict(c, strategy="sticky", n=nsched // 2, salt=rng.randrange(10 ** 9)))
+        # cells in which none of the listed load/write/unload races can occur get more schedules: they are
+        # where a new defect is not masked by a known finding
+        mult = 4 if (is_clean_cell(c) and not any(op[0] == "unload" for th in c["threads"] for op in th)) else 1
+        out.append(dict(c, strategy="random", n=nsched * mult, salt=rng.randrange(10 ** 9)))
+        out.append(dict(c, strategy="sticky", n=(nsched // 2) * mult, salt=rng.randrange(10 ** 9)))
     # exhaustive DFS with preemption bound on the smallest mixes
     small = [[["get", "f"]], [["update", "f"]], [["unload", "f"]]]
     for a, b in itertools.combinations_with_replacement(range(3), 2):
